@@ -188,3 +188,7 @@ RULE = ("leg A: TLC explores CsrReg_MC (single field, dicts, lists, list of dict
 
 def main(tier):
     return hwcheck.check("C11", tier, Adapter(), RULE)
+
+
+def replay(path):
+    return hwcheck.replay(path, [Adapter()])
